@@ -25,15 +25,22 @@ OwnSets == { Fn({}, "val"), Fn({"a"}, "val"), Fn({"a"}, "meth"), Fn({"a"}, "fn")
              Mix(Fn({"a"}, "meth"), Fn({"_missing"}, "meth")), Fn({"_p"}, "val"), Mix(Fn({"b"}, "fn"), Fn({"_p"}, "meth")) }
 
 Init == objs = <<>> /\ noise = <<>>
-New(p, own, how, src) == objs' = Append(objs, [proto |-> p, own |-> own, how |-> how, src |-> src]) /\ UNCHANGED noise
+(* tagged: the replay gives the object a unique `tag` property so that the language's structural == is identity;      *)
+(* objects with no property at all (tagged = FALSE) and non-object roots (rk # "obj": 5, "s", [1, 2]) have none.          *)
+New(p, own, how, src) == objs' = Append(objs, [proto |-> p, own |-> own, how |-> how, src |-> src, tagged |-> TRUE, rk |-> "obj"]) /\ UNCHANGED noise
+NewEmpty(p, how, src) == objs' = Append(objs, [proto |-> p, own |-> Fn({}, "val"), how |-> how, src |-> src, tagged |-> FALSE, rk |-> "obj"]) /\ UNCHANGED noise
+NewRoot(kind) == objs' = Append(objs, [proto |-> 0, own |-> Fn({}, "val"), how |-> "lit", src |-> 0, tagged |-> FALSE, rk |-> kind]) /\ UNCHANGED noise
 Noise(s1, s2) == noise = <<>> /\ noise' = <<[at |-> Len(objs), a |-> s1, b |-> s2]>> /\ UNCHANGED objs
 Literal(own)   == New(0, own, "lit", 0)
 Bear(src, own) == New(src, own, "bear", src)
 Bro(src, own)  == New(objs[src].proto, own, "bro", src)
 Next == /\ Len(objs) < MaxObjs
         /\ \/ \E own \in OwnSets : \/ Literal(own)
-                                   \/ \E s \in 1..Len(objs) : Bear(s, own) \/ Bro(s, own)
-           \/ \E s1, s2 \in 1..Len(objs) : s1 # s2 /\ Noise(s1, s2)
+                                   \/ \E s \in 1..Len(objs) : Bear(s, own) \/ (objs[s].rk = "obj" /\ Bro(s, own))
+           \/ NewEmpty(0, "lit", 0)
+           \/ \E s \in 1..Len(objs) : NewEmpty(s, "bear", s) \/ (objs[s].rk = "obj" /\ NewEmpty(objs[s].proto, "bro", s))
+           \/ (objs = <<>> /\ \E kind \in {"int", "str", "arr"} : NewRoot(kind))
+           \/ \E s1, s2 \in 1..Len(objs) : s1 # s2 /\ objs[s1].rk = "obj" /\ objs[s2].rk = "obj" /\ Noise(s1, s2)
 Spec == Init /\ [][Next]_<<objs, noise>>
 
 (* ---- resolution ---------------------------------------------------------- *)
@@ -52,6 +59,13 @@ Resolve(o, n) ==
        IF m.found THEN [r |-> "missing", owner |-> m.owner, kind |-> m.kind]
        ELSE [r |-> "noprop", owner |-> 0, kind |-> "none"]
 KindOf(o, x) == \E k \in 1..Len(Chain(o)) : Chain(o)[k] = x
+(* what kindOf? can observe: it compares with the structural ==, under which all property-less objects are one *)
+KindOfObs(o, x) == IF objs[x].tagged \/ objs[x].rk # "obj" THEN KindOf(o, x)
+                   ELSE \E k \in 1..Len(Chain(o)) : ~objs[Chain(o)[k]].tagged /\ objs[Chain(o)[k]].rk = "obj"
+(* the tag an object shows: its own, else the nearest tagged ancestor's (0: none) *)
+RECURSIVE EffTag(_)
+EffTag(o) == IF o = 0 THEN 0 ELSE IF objs[o].tagged THEN o ELSE EffTag(objs[o].proto)
+RootKind(o) == objs[Chain(o)[Len(Chain(o))]].rk
 PublicKeys(o) == {n \in DOMAIN objs[o].own : n \notin {"_p", "_missing"}}
 
 (* ---- properties of the forest (checked on every reachable forest) -------- *)
